@@ -698,6 +698,11 @@ class Fn:
         if k == "cast":
             inner = self.operand_expr(rv["op"], b, i)
             kind = rv["kind"]
+            if "Unsize" in kind:
+                src = rv["op"].get("place", {}).get("ty") or rv["op"].get("ty", "")
+                m = re.match(r"^(?:&mut |&|\*mut |\*const )\[.*; ([A-Za-z_0-9]+)\]$", src)
+                if m:
+                    return ("unsize", inner, m.group(1))
             # pointer-to-pointer casts, unsizing and transmutes between pointer types keep the
             # address: transparent for provenance, but remembered
             return ("cast", kind.split("(")[0], inner, rv["ty"])
@@ -774,8 +779,126 @@ class Fn:
         n = len(self.blocks[b]["stmts"])
         return self.local_expr(0, b, n)
 
+    def phi_inputs(self, b, var):
+        """expressions flowing into ('phi', b, var) from each predecessor"""
+        out = []
+        for p in self.preds(True).get(b, []):
+            n = len(self.blocks[p]["stmts"]) + 1
+            out.append(self.version_expr(self.version_at(p, n, var)))
+        return out
+
+    def deep_simplify(self, e, depth=0, stack=()):
+        """simplify + resolve `field of call result` through the callee's return expression and
+        `field of phi` when all incoming values agree (loop-invariant fields)"""
+        e = simplify(e)
+        if depth > 10 or not isinstance(e, tuple) or not e:
+            return e
+        e = tuple(self.deep_simplify(x, depth + 1, stack) if isinstance(x, tuple) else x for x in e)
+        e = simplify(e)
+        if e[0] != "field" or not isinstance(e[1], tuple):
+            return e
+        base, name = e[1], e[2]
+        if base[0] == "call" and isinstance(base[1], str):
+            g = self.prog.fns.get(base[1])
+            if g is not None and g.has_mir and g is not self:
+                rb = g.return_blocks()
+                if len(rb) == 1:
+                    r = g.deep_simplify(("field", g.return_expr(rb[0]), name), depth + 1)
+                    if entry_terms_only(r):
+                        cal = callee_of(self.term(base[3])) or {}
+                        try:
+                            tr = translate(g, r, self, base[3], base[2], cal.get("rargs") or cal.get("args") or [])
+                            return self.deep_simplify(tr, depth + 1, stack)
+                        except Untranslatable:
+                            return e
+        if base[0] == "phi":
+            if base in stack:
+                return e
+            results = set()
+            for x in self.phi_inputs(base[1], base[2]):
+                r = self.deep_simplify(("field", x, name), depth + 1, stack + (base,))
+                if r == e:
+                    continue
+                results.add(r)
+            if len(results) == 1:
+                return results.pop()
+        return e
+
     def cur_mem_version(self, b, i, field):
         return self.version_at(b, i, ("M", field))
+
+
+def simplify(e):
+    """local rewriting: len(unsize(array ref, C)) -> C ; field of aggregate -> component"""
+    if not isinstance(e, tuple) or not e:
+        return e
+    e = tuple(simplify(x) if isinstance(x, tuple) else x for x in e)
+    if e[0] == "pcall" and e[1] == "<[T]>::len" and len(e[2]) == 1:
+        a = strip_casts(e[2][0])
+        if isinstance(a, tuple) and a[0] == "unsize":
+            c = a[2]
+            return ("int", int(c)) if c.isdigit() else ("cparam", c)
+    if e[0] == "field" and isinstance(e[1], tuple) and e[1][0] == "agg":
+        for fname, fe in e[1][3]:
+            if fname == e[2]:
+                return fe
+    if e[0] == "field" and isinstance(e[1], tuple) and e[1][0] == "upd":
+        # field of a partially updated aggregate
+        upd = e[1]
+        if upd[2] == (e[2],):
+            return upd[3]
+        return simplify(("field", upd[1], e[2]))
+    return e
+
+
+class Untranslatable(Exception):
+    pass
+
+
+def translate(callee, e, caller, b, args, generic_args):
+    """Rewrite expression `e`, stated in the entry terms of `callee` (parameters, const
+    parameters, memory at entry), into the terms of `caller` just before the call at block b."""
+    n = len(caller.blocks[b]["stmts"])
+    gens = [x.split(":")[0] for x in callee.rec.get("generics", [])]
+    gmap = dict(zip(gens, generic_args)) if len(gens) == len(generic_args) else {}
+
+    def sub(x):
+        if not isinstance(x, tuple):
+            return x
+        k = x[0]
+        if k == "param":
+            if x[1] - 1 < len(args):
+                return args[x[1] - 1]
+            raise Untranslatable()
+        if k == "cparam":
+            v = gmap.get(x[1], x[1])
+            if v.isdigit():
+                return ("int", int(v))
+            return ("cparam", v)
+        if k == "load":
+            ver = x[3]
+            if ver[0] == "entry" and ver[1][0] == "M":
+                return ("load", sub(x[1]), tuple(sub(p) if isinstance(p, tuple) else p for p in x[2]), caller.version_at(b, n, ver[1]))
+            raise Untranslatable()
+        if k in ("phi", "memdef", "uninit", "undef", "mem0", "cyc", "call", "upd", "local"):
+            raise Untranslatable()
+        return tuple(sub(y) if isinstance(y, tuple) else y for y in x)
+
+    return simplify(sub(e))
+
+
+def entry_terms_only(e):
+    """True if e mentions only parameters, const parameters, literals and memory at entry"""
+    for s in walk(e):
+        if not isinstance(s, tuple) or not s:
+            continue
+        if s[0] in ("phi", "memdef", "uninit", "undef", "cyc", "call", "upd", "local"):
+            return False
+        if s[0] == "load":
+            ver = s[3]
+            if not (ver[0] == "entry"):
+                return False
+    return True
 
 
 def p_variant(p):
